@@ -142,3 +142,59 @@ def obsRender (envS srcS feederS : String) : String :=
   | _, _, _ => "BADLINE"
 
 end Plush
+
+namespace Plush
+
+/-- the `ctx` protocol op: a history of New / Set / Value / Has on a tree of contexts (C10) -/
+def ctxValOf (s : String) : Val :=
+  if s == "n" then .nil
+  else if s.startsWith "i" then .int ((s.drop 1).toString.toInt?.getD 0)
+  else .str (b s)
+
+def ctxObsVal (key : String) : Val → String
+  | .nil => "n"
+  | .int i => "i" ++ toString i
+  | .gofn n => if n == key then "fn:" ++ key else "fn:?"
+  | _ => "?"
+
+def obsCtx (opsS : String) : String :=
+  let ops := (opsS.splitOn ";").filter (· != "")
+  let step (acc : Store × List Nat × List String) (op : String) : Store × List Nat × List String :=
+    let (st, ctxs, obs) := acc
+    let arg := (op.drop 1).toString
+    match op.front with
+    | 'R' =>
+      let data := if arg == "" then [] else (arg.splitOn ",").map fun kv =>
+        match kv.splitOn "=" with
+        | [k, v] => (b k, ctxValOf v)
+        | _ => (b kv, Val.nil)
+      -- Go map: a later duplicate key overwrites; descriptors never repeat keys
+      let (st', c) := st.newRoot data
+      (st', ctxs ++ [c], obs)
+    | 'N' =>
+      match arg.toNat? >>= fun p => ctxs[p]? with
+      | some p => let (st', c) := st.newChild p; (st', ctxs ++ [c], obs)
+      | none => (st, ctxs, obs)
+    | 'S' =>
+      match arg.splitOn "," with
+      | [c, k, v] => match c.toNat? >>= fun i => ctxs[i]? with
+        | some ci => (st.set ci (b k) (ctxValOf v), ctxs, obs)
+        | none => (st, ctxs, obs)
+      | _ => (st, ctxs, obs)
+    | 'V' =>
+      match arg.splitOn "," with
+      | [c, k] => match c.toNat? >>= fun i => ctxs[i]? with
+        | some ci => (st, ctxs, obs ++ [ctxObsVal k (st.value ci (b k))])
+        | none => (st, ctxs, obs ++ ["-"])
+      | _ => (st, ctxs, obs)
+    | 'H' =>
+      match arg.splitOn "," with
+      | [c, k] => match c.toNat? >>= fun i => ctxs[i]? with
+        | some ci => (st, ctxs, obs ++ [if st.has ci (b k) then "t" else "f"])
+        | none => (st, ctxs, obs ++ ["-"])
+      | _ => (st, ctxs, obs)
+    | _ => (st, ctxs, obs)
+  let (_, _, obs) := ops.foldl step (({} : Store), [], [])
+  "OK " ++ ",".intercalate obs
+
+end Plush
